@@ -15,7 +15,8 @@ open Dawgs.Generated (Visitors.enterActions Visitors.exitActions Visitors.enterM
 /-- frontend.NewContext(): no filters -/
 def T : Tables :=
   { enter := Visitors.enterActions, exit := Visitors.exitActions, enterM := Visitors.enterMethods, exitM := Visitors.exitMethods,
-    atoms := Generated.Visitors.atomCodes, filters := [], base := Visitors.baseVisitor, root := Visitors.rootVisitor }
+    atoms := Generated.Visitors.atomCodes, filters := [], base := Visitors.baseVisitor, root := Visitors.rootVisitor,
+    unsupM := Generated.Visitors.unsupMethods }
 /-- frontend.DefaultCypherContext(): the five default filters -/
 def TD : Tables := { T with filters := Visitors.defaultFilters }
 
@@ -28,6 +29,20 @@ def errTables (filters : List Nat) : Dawgs.C09.Tables :=
   { enter := Visitors.enterMethods.map (·.map (fun m => (m.1, m.2.1, m.2.2.1))), filters := filters, base := Visitors.baseVisitor }
 def E : Dawgs.C09.Tables := errTables []
 def ED : Dawgs.C09.Tables := errTables Visitors.defaultFilters
+
+/-- the rules whose BaseVisitor.EnterOC_<rule> was an EMPTY stub before the repair "report silently ignored rules as unsupported"
+(hooks/C07-fix.patch); `E_old` is the error model of that older table, kept for the refutation theorems `…_old` -/
+def repairedStubs : List String :=
+  ["oC_ListComprehension", "oC_PatternComprehension", "oC_ListOperatorExpression", "oC_LoadCSV", "oC_InQueryCall", "oC_StandaloneCall",
+   "oC_Hint", "oC_CypherOption", "oC_CreateUnique"]
+def enterMethodsOld : List (List (Nat × Bool × Bool × Bool)) :=
+  (Visitors.enterMethods.zip Generated.Grammar.ruleNames).map (fun p =>
+    if repairedStubs.contains p.2 then p.1.map (fun m => if m.1 == Visitors.baseVisitor then (m.1, false, true, m.2.2.2) else m) else p.1)
+def E_old : Dawgs.C09.Tables :=
+  { enter := enterMethodsOld.map (·.map (fun m => (m.1, m.2.1, m.2.2.1))), filters := [], base := Visitors.baseVisitor }
+
+/-- Cypher → Statement → Query → RegularQuery: the chain on which QueryVisitor stays the active visitor -/
+def rootChain : List Nat := [0, 8, 9, 10]
 
 /-- the code the model transcribes (normalised by go/printer, comments stripped) -/
 def expectedEnter : String := "func (s *Context) Enter(visitor Visitor) { s.visitorStack = append(s.visitorStack, &descentEntry{ visitor: visitor, }) visitor.SetContext(s) }"
